@@ -1128,3 +1128,14 @@ M('C15', 'query points cast to the value precision', DUF,
   "                xi = np.asarray(xi).astype(self.values.dtype, casting='safe')",
   "                xi = np.asarray(xi).astype(self.values.dtype, casting='same_kind')",
   'float32')
+M('C14', 'multi-argument insert advances by one per block', 'odl/set/domain.py',
+  """            return self.insert(index, intvs[0]).insert(
+                index + intvs[0].ndim, *(intvs[1:]))""",
+  """            return self.insert(index, intvs[0]).insert(
+                index + 1, *(intvs[1:]))""", 'IntervalProd.insert')
+M('C14', 'grid insert puts the block after the tail', 'odl/discr/grid.py',
+  """            new_vecs = (self.coord_vectors[:index] + grid.coord_vectors +
+                        self.coord_vectors[index:])""",
+  """            new_vecs = (self.coord_vectors[:index] +
+                        self.coord_vectors[index:] + grid.coord_vectors)""",
+  'RectGrid.insert')
